@@ -8,6 +8,12 @@ package main
 import (
 	"bufio"
 	"bytes"
+	"go/ast"
+	"go/importer"
+	"go/parser"
+	"go/token"
+	"go/types"
+	"path/filepath"
 	"encoding/hex"
 	"encoding/json"
 	"fmt"
@@ -61,6 +67,107 @@ func verifSetPkgs(r *verifReq) *listedPackage {
 		}
 	}
 	return cur
+}
+
+type verifFunc struct {
+	Name      string   `json:"name"`
+	File      string   `json:"file"`
+	Calls     []string `json:"calls"`
+	Builtin   bool     `json:"builtin_print"` // still contains a call of the print/println builtins
+	RawStderr bool     `json:"raw_stderr"`    // calls write(2, ...) directly
+}
+
+func verifStripRuntime(paths []string) []verifFunc {
+	var out []verifFunc
+	fs := token.NewFileSet()
+	var files []*ast.File
+	for _, path := range paths {
+		file, err := parser.ParseFile(fs, path, nil, parser.SkipObjectResolution)
+		if err != nil {
+			panic(err)
+		}
+		stripRuntime(filepath.Base(path), file)
+		files = append(files, file)
+	}
+	// resolve callees with go/types (errors tolerated: the stripped runtime need not type-check fully)
+	info := &types.Info{Uses: map[*ast.Ident]types.Object{}, Selections: map[*ast.SelectorExpr]*types.Selection{}}
+	conf := types.Config{Importer: importer.ForCompiler(fs, "source", nil), Error: func(error) {}, FakeImportC: true}
+	conf.Check("runtime", fs, files, info)
+	funcName := func(f *types.Func) string {
+		sig, _ := f.Type().(*types.Signature)
+		if sig != nil && sig.Recv() != nil {
+			t := sig.Recv().Type()
+			if p, ok := t.(*types.Pointer); ok {
+				t = p.Elem()
+			}
+			if n, ok := t.(*types.Named); ok {
+				return n.Obj().Name() + "." + f.Name()
+			}
+			return "?." + f.Name()
+		}
+		return f.Name()
+	}
+	for i, file := range files {
+		base := filepath.Base(paths[i])
+		for _, d := range file.Decls {
+			fd, ok := d.(*ast.FuncDecl)
+			if !ok {
+				continue
+			}
+			vf := verifFunc{Name: fd.Name.Name, File: base}
+			if fd.Recv != nil && len(fd.Recv.List) == 1 {
+				t := fd.Recv.List[0].Type
+				if st, ok := t.(*ast.StarExpr); ok {
+					t = st.X
+				}
+				if ix, ok := t.(*ast.IndexExpr); ok {
+					t = ix.X
+				}
+				if id, ok := t.(*ast.Ident); ok {
+					vf.Name = id.Name + "." + fd.Name.Name
+				}
+			}
+			seen := map[string]bool{}
+			if fd.Body != nil {
+				ast.Inspect(fd.Body, func(n ast.Node) bool {
+					call, ok := n.(*ast.CallExpr)
+					if !ok {
+						return true
+					}
+					name := ""
+					switch f := call.Fun.(type) {
+					case *ast.Ident:
+						if f.Name == "print" || f.Name == "println" {
+							if _, isBuiltin := info.Uses[f].(*types.Builtin); isBuiltin || info.Uses[f] == nil {
+								vf.Builtin = true
+							}
+						}
+						if fn, ok := info.Uses[f].(*types.Func); ok && fn.Pkg() != nil && fn.Pkg().Name() == "runtime" {
+							name = funcName(fn)
+						}
+						if f.Name == "write" && len(call.Args) > 0 {
+							if bl, ok := call.Args[0].(*ast.BasicLit); ok && bl.Value == "2" {
+								vf.RawStderr = true
+							}
+						}
+					case *ast.SelectorExpr:
+						if sel := info.Selections[f]; sel != nil {
+							if fn, ok := sel.Obj().(*types.Func); ok && fn.Pkg() != nil && fn.Pkg().Name() == "runtime" {
+								name = funcName(fn)
+							}
+						}
+					}
+					if name != "" && !seen[name] {
+						seen[name] = true
+						vf.Calls = append(vf.Calls, name)
+					}
+					return true
+				})
+			}
+			out = append(out, vf)
+		}
+	}
+	return out
 }
 
 func verifHex(s string) []byte {
@@ -148,6 +255,9 @@ func verifHandle(r *verifReq) (resp map[string]any) {
 		resp["case"] = literals.VerifObfuscate(idx, seed, verifHex(r.In))
 	case "litconsts":
 		resp["consts"] = literals.VerifConsts()
+	case "stripruntime":
+		// Args = runtime source files; returns, per function of the -tiny stripped runtime, what it calls
+		resp["funcs"] = verifStripRuntime(r.Args)
 	case "seedset":
 		var f seedFlag
 		// seedFlag.Set prints a warning to stderr for long seeds; harmless here.
